@@ -1,11 +1,297 @@
 /-
-C12 — Size limits are enforced exactly and reported, never silently. (first theorems)
+C12 — Size limits are enforced exactly and reported, never silently.
+
+  "For every message and every configured size limit, a request or publish whose
+  framed size exceeds the transport's limit is not transmitted and fails with a
+  REQUEST_TOO_LARGE transport error, a response that exceeds the server-side or
+  client-requested limit reaches the caller as a RESPONSE_TOO_LARGE error rather
+  than a timeout or truncated data, and a message within the limit is never
+  rejected. After an oversize failure the same client and server keep working for
+  subsequent messages."
+
+An encoder (Thrift protocol + generated struct code) is the list of operations it
+performs on its transport: `Write`, `WriteByte`, `WriteString` (binary and compact
+protocols use the latter two on a TRichTransport). The theorems quantify over every
+limit and every such list; `opsSize ops` is the unframed size of the message,
+`4 + opsSize ops` its framed size. The model describes the code after the three
+repairs recorded in KNOWN_FINDINGS.txt (WriteByte/WriteString checked, limits 1..3,
+writeHeader keeps the error type).
 -/
 import FV.Model.OutBuf
+import FV.Proofs.OutBuf
 
 namespace FV.C12
-open FV
+open FV OutBuf
 
+/-- Write operations only (an encoder never calls `Reset`). -/
+def Writes (ops : List Op) : Prop := ∀ o ∈ ops, o.isWrite = true
+
+/-- The framed size of a message exceeds a limit (0 = unbounded). -/
+def Over (limit : Nat) (ops : List Op) : Prop := 0 < limit ∧ limit < 4 + opsSize ops
+
+instance (limit : Nat) (ops : List Op) : Decidable (Over limit ops) := by unfold Over; infer_instance
+
+/-- **Buffer exactness.** For every limit and every non-empty sequence of writes of any of
+the three kinds: `prepareMessage` fails — with the too-large error — exactly when a limit is
+set and the framed size exceeds it; otherwise it returns exactly the size prefix followed by
+the written bytes in order. (For the empty sequence nothing is ever checked; with a limit of
+at least 4, or none, the statement holds for it too: `c12_buffer_exact_nil`.) -/
+theorem c12_buffer_exact (limit : Nat) (ops : List Op) (hw : Writes ops) (hne : ops ≠ []) :
+    (prepare limit ops = .err .tooLarge ↔ Over limit ops) ∧
+    (¬ Over limit ops → prepare limit ops = .ok (be32 (opsSize ops) ++ opsPayload ops)) := by
+  unfold Over
+  by_cases hov : 0 < limit ∧ limit < 4 + opsSize ops
+  · simp [prepare_of_over limit ops hw hne hov, hov]
+  · simp [prepare_of_fits limit ops hw hov, hov]
+
+theorem c12_buffer_exact_nil (limit : Nat) (h : limit = 0 ∨ 4 ≤ limit) :
+    ¬ Over limit [] ∧ prepare limit [] = .ok (be32 0) := by
+  refine ⟨by unfold Over; simp [opsSize]; omega, ?_⟩
+  simp [prepare, runStop, bytes, len, OutBuf.new, framePlaceholder]
+
+/-- The buffer never holds more than the limit, whatever is done to it — any mix of the
+three writes and `Reset`, continuing after failures: `Bytes()` is at most `limit` long
+(at most the 4-byte placeholder for the degenerate limits 1..3). -/
+theorem c12_never_exceeds (limit : Nat) (ops : List Op) (hl : 0 < limit) :
+    ((OutBuf.new limit).runAll ops).1.bytes.length ≤ max limit 4 := by
+  rw [bytes_length _ (runAll_len_ge ops _ (by simp [new_len]))]
+  exact runAll_bounded ops (OutBuf.new limit) hl (by simp only [new_len]; show 4 ≤ max limit 4; omega)
+
+/-- Whether a write is rejected depends on sizes alone: the `{limit, len}` buffer is the
+exact projection of the byte buffer, for every operation sequence (also with `Reset`s and
+after failures), so the server-side and call-level statements below, made on sizes, are
+statements about the byte buffer. -/
+theorem c12_sizes_only (b : OutBuf) (ops : List Op) :
+    ((b.runStop ops).1.abs, (b.runStop ops).2) = b.abs.runStop ops ∧
+    ((b.runAll ops).1.abs, (b.runAll ops).2) = b.abs.runAll ops :=
+  ⟨runStop_abs ops b, runAll_abs ops b⟩
+
+/-- `prepareMessage` on sizes agrees with `prepareMessage` on bytes. -/
+theorem c12_prepare_sizes (limit : Nat) (ops : List Op) (hw : Writes ops) :
+    (prepare limit ops = .err .tooLarge ↔ prepareLen limit ops = .err .tooLarge) ∧
+    (∀ d, prepare limit ops = .ok d → prepareLen limit ops = .ok d.length) := by
+  by_cases hov : 0 < limit ∧ limit < 4 + opsSize ops
+  · by_cases hne : ops = []
+    · subst hne
+      simp [prepare, prepareLen, runStop, LBuf.runStop, bytes, len, OutBuf.new, LBuf.new, framePlaceholder, be32]
+    · simp [prepare_of_over limit ops hw hne hov, prepareLen_of_over limit ops hw hne hov]
+  · simp only [prepare_of_fits limit ops hw hov, prepareLen_of_fits limit ops hw hov]
+    refine ⟨by simp, ?_⟩
+    intro d hd
+    injection hd with hd
+    rw [← hd]
+    simp only [be32, List.length_append, List.length_cons, List.length_nil, ← opsSize_eq]
+
+/-- A transport whose own check is "framed size greater than `L`" with `L` also the limit
+given to the client's buffer (0 = unbounded). -/
+def Transport.HasLimit (t : Transport) (L : Nat) : Prop :=
+  t.bufLimit = L ∧ ∀ n, t.rejects n = decide (0 < L ∧ L < n)
+
+theorem nats_hasLimit : Transport.HasLimit natsTransport natsMaxMessageSize := by
+  refine ⟨rfl, fun n => ?_⟩
+  exact decide_eq_decide.mpr (by unfold natsMaxMessageSize; omega)
+theorem natsPublisher_hasLimit : Transport.HasLimit natsPublisher natsMaxMessageSize := by
+  refine ⟨rfl, fun n => ?_⟩
+  exact decide_eq_decide.mpr (by unfold natsMaxMessageSize; omega)
+theorem http_hasLimit (q : Nat) : Transport.HasLimit (httpTransport q) q := ⟨rfl, fun _ => rfl⟩
+theorem stomp_hasLimit (q : Nat) : Transport.HasLimit (stompPublisher q) q := ⟨rfl, fun _ => rfl⟩
+
+/-- Request side, generic in the transport. -/
+theorem request_exact_of_hasLimit (t : Transport) (L : Nat) (ht : Transport.HasLimit t L)
+    (ops : List Op) (hw : Writes ops) (hne : ops ≠ []) :
+    (Over L ops → request t ops = .rejected .requestTooLarge) ∧
+    (¬ Over L ops → request t ops = .wire (be32 (opsSize ops) ++ opsPayload ops)) := by
+  unfold Over
+  constructor
+  · intro hov
+    simp only [request, ht.1, prepare_of_over L ops hw hne hov]
+  · intro hov
+    have : ¬ (0 < L ∧ L < (be32 (opsSize ops) ++ opsPayload ops).length) := by
+      simp only [be32, List.length_append, List.length_cons, List.length_nil, ← opsSize_eq]
+      omega
+    simp only [request, ht.1, prepare_of_fits L ops hw hov, ht.2, decide_eq_true_eq, if_neg this]
+
+/-- **Request-side exactness**, for `Request`/`Oneway` over NATS and HTTP and `Publish` over
+NATS and STOMP: a message whose framed size exceeds the transport's limit is not handed to
+the wire and the caller gets REQUEST_TOO_LARGE; a message within the limit (or with no
+limit) is handed to the wire exactly — size prefix, then the encoder's bytes in order. -/
+theorem c12_request_exact (ops : List Op) (hw : Writes ops) (hne : ops ≠ []) (q : Nat) :
+    (∀ t L, (t, L) ∈ [(natsTransport, natsMaxMessageSize), (natsPublisher, natsMaxMessageSize),
+                      (httpTransport q, q), (stompPublisher q, q)] →
+      (Over L ops → request t ops = .rejected .requestTooLarge) ∧
+      (¬ Over L ops → request t ops = .wire (be32 (opsSize ops) ++ opsPayload ops))) := by
+  intro t L hmem
+  simp only [List.mem_cons, Prod.mk.injEq, List.mem_nil_iff, or_false] at hmem
+  rcases hmem with ⟨rfl, rfl⟩ | ⟨rfl, rfl⟩ | ⟨rfl, rfl⟩ | ⟨rfl, rfl⟩
+  · exact request_exact_of_hasLimit _ _ nats_hasLimit ops hw hne
+  · exact request_exact_of_hasLimit _ _ natsPublisher_hasLimit ops hw hne
+  · exact request_exact_of_hasLimit _ _ (http_hasLimit _) ops hw hne
+  · exact request_exact_of_hasLimit _ _ (stomp_hasLimit _) ops hw hne
+
+/-- Request side on sizes (what `callVia` uses). -/
+theorem requestLen_exact (t : Transport) (L : Nat) (ht : Transport.HasLimit t L)
+    (ops : List Op) (hw : Writes ops) (hne : ops ≠ []) :
+    (Over L ops → requestLen t ops = none) ∧ (¬ Over L ops → requestLen t ops = some (4 + opsSize ops)) := by
+  unfold Over
+  constructor
+  · intro hov
+    simp only [requestLen, ht.1, prepareLen_of_over L ops hw hne hov]
+  · intro hov
+    simp only [requestLen, ht.1, prepareLen_of_fits L ops hw hov, ht.2]
+    simp [hov]
+
+/-- All steps of the error reply are write operations. -/
+def SegWrites (segs : List (List Op)) : Prop := ∀ s ∈ segs, Writes s
+
+def segsSize : List (List Op) → Nat
+  | [] => 0
+  | s :: t => opsSize s + segsSize t
+
+theorem sendError_fits (segs : List (List Op)) : ∀ (b : LBuf), SegWrites segs →
+    ¬ (0 < b.limit ∧ b.limit < segsSize segs + b.len) →
+    sendError b segs = ({ b with len := b.len + segsSize segs }, false) := by
+  induction segs with
+  | nil => intro b _ _; simp [sendError, segsSize]
+  | cons s t ih =>
+    intro b hw hfit
+    simp only [segsSize] at hfit
+    have h1 := LBuf.runStop_ok s b (hw s (by simp)) (by omega)
+    have h2 := ih { b with len := b.len + opsSize s } (fun x hx => hw x (by simp [hx])) (by simp only; omega)
+    simp only [sendError, h1, h2, segsSize]
+    simp; omega
+
+/-- **A too-large response is reported.** Server with output limit `r` (NATS: 1 MiB): if
+the request goes through, the framed reply exceeds `r`, and the error reply fits `r`, the
+caller gets transport exception RESPONSE_TOO_LARGE (101) — not a timeout, not a truncated
+or oversize reply, wherever in the reply the excess is written and by whichever write path. -/
+theorem c12_response_reported (t : Transport) (L r : Nat) (ht : Transport.HasLimit t L)
+    (req rep : List Op) (errp : List (List Op))
+    (hq : Writes req) (hqne : req ≠ []) (hreq : ¬ Over L req)
+    (hp : Writes rep) (hpne : rep ≠ []) (hover : Over r rep)
+    (he : SegWrites errp) (hefit : 4 + segsSize errp ≤ r) (hepos : 0 < segsSize errp) :
+    callVia t r req rep errp = ⟨true, some .responseTooLarge⟩ := by
+  unfold callVia
+  rw [(requestLen_exact t L ht req hq hqne).2 hreq]
+  have h1 := LBuf.reply_over r rep hp hpne hover
+  have h2 := sendError_fits errp (LBuf.new r) he (by show ¬ (0 < r ∧ r < segsSize errp + 4); omega)
+  simp only [sendReply, h1, h2, if_true]
+  have : 4 < 4 + segsSize errp := by omega
+  simp [LBuf.hasWriteData, LBuf.new, processReply, appResponseTooLarge, this]
+
+/-- The same for the real NATS pair (`fNatsTransport` + `fNatsServer`, both 1 MiB). -/
+theorem c12_response_reported_nats (req rep : List Op) (errp : List (List Op))
+    (hq : Writes req) (hqne : req ≠ []) (hreq : ¬ Over natsMaxMessageSize req)
+    (hp : Writes rep) (hpne : rep ≠ []) (hover : Over natsMaxMessageSize rep)
+    (he : SegWrites errp) (hefit : 4 + segsSize errp ≤ natsMaxMessageSize) (hepos : 0 < segsSize errp) :
+    callNats req rep errp = ⟨true, some .responseTooLarge⟩ :=
+  c12_response_reported natsTransport _ _ nats_hasLimit req rep errp hq hqne hreq hp hpne hover he hefit hepos
+
+/-- HTTP: the client-requested limit `r` is compared by the handler with the *unframed*
+reply; over it, the caller gets RESPONSE_TOO_LARGE (413 → 101); otherwise the reply. -/
+theorem c12_response_reported_http (q r : Nat) (req rep : List Op)
+    (hq : Writes req) (hqne : req ≠ []) (hreq : ¬ Over q req) :
+    (0 < r ∧ r < opsSize rep → callHttp q r req rep = ⟨true, some .responseTooLarge⟩) ∧
+    (¬ (0 < r ∧ r < opsSize rep) → callHttp q r req rep = ⟨true, none⟩) := by
+  unfold callHttp
+  rw [(requestLen_exact _ q (http_hasLimit q) req hq hqne).2 hreq]
+  constructor <;> intro h <;> simp [h]
+
+/-- **Never spurious.** A request within the request limit and a reply within the server's
+limit (or no limits): the request is transmitted and the caller gets the result. -/
+theorem c12_never_spurious (t : Transport) (L r : Nat) (ht : Transport.HasLimit t L)
+    (req rep : List Op) (errp : List (List Op))
+    (hq : Writes req) (hqne : req ≠ []) (hreq : ¬ Over L req)
+    (hp : Writes rep) (hrep : ¬ Over r rep) (hpos : 0 < opsSize rep) :
+    callVia t r req rep errp = ⟨true, none⟩ := by
+  unfold callVia
+  rw [(requestLen_exact t L ht req hq hqne).2 hreq]
+  have h1 := LBuf.reply_fits r rep hp hrep
+  simp only [sendReply, h1]
+  have : 4 < 4 + opsSize rep := by omega
+  simp [LBuf.hasWriteData, processReply, this]
+
+/-- `Reset()` restores the initial state. -/
 theorem c12_reset_initial (b : OutBuf) : b.reset = OutBuf.new b.limit := rfl
+
+/-- **Keeps working.** An operation that fails leaves the buffer in its initial state
+(placeholder only, same limit), and so does an encoder run that stops on a failure; what is
+written next behaves exactly as on a fresh buffer. (Client and server make a fresh buffer per
+message anyway: `prepare`, `callVia` are functions of the message alone.) -/
+theorem c12_keeps_working (b : OutBuf) (ops next : List Op) (hfail : (b.runStop ops).2 = true) :
+    (b.runStop ops).1 = OutBuf.new b.limit ∧
+    (b.runStop ops).1.runStop next = (OutBuf.new b.limit).runStop next ∧
+    (b.runStop ops).1.runAll next = (OutBuf.new b.limit).runAll next := by
+  have key : ∀ (ops : List Op) (b : OutBuf), (b.runStop ops).2 = true → (b.runStop ops).1 = OutBuf.new b.limit := by
+    intro ops
+    induction ops with
+    | nil => intro b h; simp [runStop] at h
+    | cons o t ih =>
+      intro b h
+      simp only [runStop] at h ⊢
+      by_cases hf : (b.apply o).2 = true
+      · simp only [hf, if_true]
+        cases ho : o.isWrite
+        · cases o <;> simp [Op.isWrite] at ho
+          simp [apply] at hf
+        · rw [apply_write b o ho] at hf ⊢
+          split at hf
+          · rename_i hc; rw [if_pos hc]; rfl
+          · simp at hf
+      · simp only [hf] at h ⊢
+        have hlim : (b.apply o).1.limit = b.limit := by
+          cases ho : o.isWrite
+          · cases o <;> simp [Op.isWrite] at ho
+            rfl
+          · rw [apply_write b o ho]; split <;> rfl
+        have := ih (b.apply o).1 (by simpa using h)
+        rw [hlim] at this
+        simpa using this
+  have h := key ops b hfail
+  rw [h]
+  exact ⟨rfl, rfl, rfl⟩
+
+/-- Known finding `json-sticky-writer` (KNOWN_FINDINGS.txt), on a concrete witness: the
+hypothesis of `c12_response_reported` that the error reply's writes reach the buffer fails
+for a buffered encoder whose `Flush` failed (TJSONProtocol keeps the error in its
+`bufio.Writer`): only the response header, written directly to the transport, arrives. The
+caller then gets a protocol error, not 101 — although every size hypothesis holds. -/
+theorem c12_response_sticky_encoder_counterexample :
+    let hdr := Op.write (List.replicate 36 0)
+    let rep := [hdr, Op.write (List.replicate 220 0)]
+    Over 150 rep ∧ 4 + 36 + 70 ≤ 150 ∧
+    (sendReplySticky (LBuf.new 150) rep hdr).1.hasWriteData = true ∧
+    processReply (sendReplySticky (LBuf.new 150) rep hdr).2 = some .other := by
+  intro hdr rep
+  have hs : hdr.size = 36 := by simp only [hdr, Op.size, Op.payload, List.length_replicate]
+  have hsz : opsSize rep = 256 := by simp only [rep, opsSize, Op.size, Op.payload, hdr, List.length_replicate]
+  have hw : ∀ o ∈ rep, o.isWrite = true := by
+    intro o ho; simp [rep, hdr] at ho; rcases ho with rfl | rfl <;> rfl
+  have h1 := LBuf.reply_over 150 rep hw (by simp [rep]) (by omega)
+  refine ⟨by unfold Over; omega, by omega, ?_, ?_⟩
+  · simp only [sendReplySticky, h1, if_true, LBuf.apply_write _ hdr rfl, hs]
+    simp [LBuf.new, LBuf.hasWriteData]
+  · simp only [sendReplySticky, h1, if_true, processReply]
+
+/-! Non-vacuity: the hypotheses are met by non-trivial values, and the repaired witnesses. -/
+
+/-- `WriteString` last, one byte over (silently accepted before the repair). -/
+example : prepare 4 [.writeString [1]] = .err .tooLarge := by
+  simp [prepare, runStop, OutBuf.apply, writeString, put, tooLarge, OutBuf.new, len, framePlaceholder, failed]
+example : prepare 5 [.writeByte 7] = .ok [0, 0, 0, 1, 7] := by
+  simp [prepare, runStop, OutBuf.apply, writeByte, put, tooLarge, OutBuf.new, len, framePlaceholder, failed, bytes, be32]
+/-- Limits 1..3 (stack overflow before the repair): every write is rejected. -/
+example : prepare 2 [.write []] = .err .tooLarge := by
+  simp [prepare, runStop, OutBuf.apply, write, put, tooLarge, OutBuf.new, len, framePlaceholder, failed]
+example : Writes [.write [1, 2], .writeByte 3, .writeString [4]] ∧ Over 7 [.write [1, 2], .writeByte 3, .writeString [4]]
+    ∧ ¬ Over 8 [.write [1, 2], .writeByte 3, .writeString [4]] := by
+  refine ⟨?_, ?_, ?_⟩
+  · intro o ho; simp at ho; rcases ho with rfl | rfl | rfl <;> rfl
+  · simp [Over, opsSize, Op.size, Op.payload]
+  · simp [Over, opsSize, Op.size, Op.payload]
+example : SegWrites [[.write [0, 1]], [], [.writeString [5]]] ∧ segsSize [[.write [0, 1]], [], [.writeString [5]]] = 3 := by
+  refine ⟨?_, by simp [segsSize, opsSize, Op.size, Op.payload]⟩
+  intro s hs o ho
+  simp at hs
+  rcases hs with rfl | rfl | rfl <;> simp at ho <;> subst ho <;> rfl
 
 end FV.C12
